@@ -223,6 +223,11 @@ def ntsReplicaMap (rfs : List (Nat × Nat)) (hosts : List Host) (tokens : List E
     let dcsWithReplicas := (rfs.filter (fun p => p.2 > 0)).length
     if dcsWithReplicas = c.nDcRacks ∧ rr.length ≠ tokens.length then .error .sizeMismatch else .ok rr
 
+/-- the panic, if any -/
+def crashOf {α : Type} : Except Crash α → Option Crash
+  | .error e => some e
+  | .ok _ => none
+
 /-! ## policies.go `Pick`: the replica list iteration starts from -/
 
 /-- `ht := meta.replicas[ks].replicasFor(token); if ht == nil { host := GetHostForToken; [host] } else ht.hosts` -/
